@@ -53,6 +53,8 @@ fn expected_point(proc: &str, pc: &str) -> Vec<&'static str> {
         ("st", "idle") => vec!["stream.loop.top"],
         ("st", "taken") => vec!["stream.published.before_process", "process_operation.start"],
         ("st", "processed") => vec!["stream.published.processed", "process_operation.processed"],
+        ("st", "acklocked") | ("app", "acklocked") => vec!["acked.ack.before_read"],
+        // "ackblocked": inside semaphore.acquire(), no schedule point reached
         ("st", "ackread") | ("app", "ackread") => vec!["acked.ack.after_read"],
         ("st", "ackintx") | ("app", "ackintx") => vec!["acked.ack.before_commit"],
         ("st", "deliver") => vec!["stream.loop.before_send", "replay.before_send"],
@@ -72,6 +74,8 @@ pub struct Walk {
     pub got_replay: BTreeSet<String>,
     pub in_window: bool,
     pub window_done: bool,
+    /// set when an acker was found inside Acked::ack although the other one holds the permit
+    pub non_exclusive: Option<String>,
     pub cursor_at_open: BTreeMap<String, i64>,
 }
 
@@ -85,6 +89,7 @@ impl Walk {
             got_replay: BTreeSet::new(),
             in_window: false,
             window_done: false,
+            non_exclusive: None,
             cursor_at_open: BTreeMap::new(),
         }
     }
@@ -163,14 +168,16 @@ impl Walk {
                 ),
             });
         }
-        if act == "AppAckBegin" || act == "AppAckCommit" || act == "AppAckWriteTx" {
+        if obs.get("res").is_some()
+            && matches!(act, "AppAckBegin" | "AppAckRead" | "AppAckCommit" | "AppAckWriteTx" | "AckCommit")
+        {
             let want_res = post["res"].as_str().unwrap_or("?");
             let got_res = obs["res"].as_str().unwrap_or("?");
             if want_res != got_res {
                 let foreign = step["arg"]["op"]["tp"] != "t";
                 out.push(Finding {
                     property: "C07",
-                    signature: if foreign && act == "AppAckBegin" {
+                    signature: if foreign && act == "AppAckBegin" && got_res != "rejected" {
                         "c07-foreign-ack-not-rejected".into()
                     } else {
                         format!("c07-ack-result-differs:{act}")
@@ -282,7 +289,19 @@ impl Walk {
                     None => want_pts.is_empty(),
                     Some(p) => want_pts.contains(&p),
                 };
-                if !ok {
+                if !ok && pc == "ackblocked" {
+                    // C07/C15 mechanism: the read-advance-write cycle of Acked::ack must be exclusive
+                    out.push(Finding {
+                        property: prop,
+                        signature: "ack-critical-section-not-exclusive".into(),
+                        detail: format!(
+                            "{act}: '{proc}' entered Acked::ack while the other acker holds the Acked permit (parked inside its \
+                             critical section) and reached {got_pt:?}; the specification has it waiting for the permit, \
+                             so two read-advance-write cycles on the persisted cursor overlap"
+                        ),
+                    });
+                    self.non_exclusive = Some(proc.to_string());
+                } else if !ok {
                     out.push(Finding {
                         property: prop,
                         signature: format!("conformance-step-structure:{act}"),
@@ -429,6 +448,7 @@ fn run_behaviour(b: &Value, db: &std::path::Path, kill: bool, prop: &'static str
     let mut crashes = 0usize;
     let mut distinct = Vec::new();
     let mut policies = BTreeSet::new();
+    let mut last_open = json!(null);
 
     for step in steps {
         let act = step["act"].as_str().unwrap_or("?");
@@ -440,6 +460,7 @@ fn run_behaviour(b: &Value, db: &std::path::Path, kill: bool, prop: &'static str
                 }
                 let mut cmd = step.clone();
                 cmd["cfg"] = json!({"db": db.to_string_lossy(), "remote": remote, "net": net, "control": true});
+                last_open = cmd.clone();
                 policies.insert(step["arg"]["p"].as_str().unwrap_or("?").to_string());
                 let (h, obs) = Host::start(kill, &cmd)?;
                 host = Some(h);
@@ -497,6 +518,20 @@ fn run_behaviour(b: &Value, db: &std::path::Path, kill: bool, prop: &'static str
             }
         };
         let fs = walk.compare(step, &obs, prop);
+        if let Some(x) = walk.non_exclusive.take() {
+            // Two ackers are inside Acked::ack at once. Show what that does to the properties: let
+            // the second one read now (stale), finish the holder, finish the second one, look at the
+            // persisted cursor; for C15 crash, re-open from the frontier and look at the replay.
+            findings.extend(fs);
+            *counters.entry("exploit:overlapping-acks".into()).or_insert(0) += 1;
+            match exploit_overlap(&mut host, step, &x, &walk, kill, prop, &last_open) {
+                Ok(more) => findings.extend(more),
+                Err(e) => {
+                    *counters.entry(format!("exploit:aborted:{}", e.chars().take(40).collect::<String>())).or_insert(0) += 1;
+                }
+            }
+            break;
+        }
         let stop = !fs.is_empty();
         let drift = fs.iter().any(|f| f.signature.starts_with("conformance-step-structure"));
         findings.extend(fs);
@@ -525,4 +560,101 @@ fn run_behaviour(b: &Value, db: &std::path::Path, kill: bool, prop: &'static str
         counters: counters.into_iter().collect(),
         crashes,
     })
+}
+
+/// See the call site. `x` = the acker found inside `Acked::ack` (parked at acked.ack.before_read)
+/// although the other one holds the permit.
+fn exploit_overlap(
+    host: &mut Option<Host>,
+    step: &Value,
+    x: &str,
+    walk: &Walk,
+    kill: bool,
+    prop: &'static str,
+    last_open: &Value,
+) -> Result<Vec<Finding>, String> {
+    let mut out = Vec::new();
+    let post = &step["post"];
+    let h_name = if x == "st" { "app" } else { "st" };
+    let act = |who: &str, what: &str| -> Value {
+        json!({"act": if who == "app" { format!("AppAck{what}") } else { format!("Ack{what}") }, "arg": {}})
+    };
+    let hst = host.as_mut().ok_or("no node")?;
+    // 1. the second acker reads (stale: the holder has not written yet)
+    hst.exec(&act(x, "Read"))?;
+    // 2. the holder finishes
+    let hpc = post[if h_name == "st" { "stpc" } else { "apppc" }].as_str().unwrap_or("?");
+    let todo: &[&str] = match hpc {
+        "acklocked" => &["Read", "WriteTx", "Commit"],
+        "ackread" => &["WriteTx", "Commit"],
+        "ackintx" => &["Commit"],
+        other => return Err(format!("holder at pc {other}")),
+    };
+    for t in todo {
+        hst.exec(&act(h_name, t))?;
+    }
+    // 3. the second acker writes what it computed from its stale read
+    hst.exec(&act(x, "WriteTx"))?;
+    let obs = hst.exec(&act(x, "Commit"))?;
+    // 4. both acks returned: the persisted cursor must cover both and must not have gone back
+    let before = &walk.prev_cursor;
+    let after = cursor_map(&obs["cursor"], &walk.authors);
+    let mut frontier = before.clone();
+    let mut acked = Vec::new();
+    for op in [&post["stop"], &post["appop"]] {
+        if op["tp"] == "t" {
+            let a = op["a"].as_str().unwrap_or("?").to_string();
+            let seq = op["seq"].as_i64().unwrap_or(-1);
+            acked.push(op_key(op));
+            let e = frontier.entry(a).or_insert(-1);
+            *e = (*e).max(seq);
+        }
+    }
+    let back: Vec<&String> = walk.authors.iter().filter(|a| after[*a] < before[*a]).collect();
+    let lost: Vec<&String> = walk.authors.iter().filter(|a| after[*a] < frontier[*a]).collect();
+    if !back.is_empty() {
+        out.push(Finding {
+            property: "C07",
+            signature: "c07-cursor-moved-backwards".into(),
+            detail: format!(
+                "overlapping acks of {acked:?} (both returned): persisted cursor of {back:?} went from {before:?} to {after:?}"
+            ),
+        });
+    } else if !lost.is_empty() {
+        out.push(Finding {
+            property: "C07",
+            signature: "c07-concurrent-acks-lost-update".into(),
+            detail: format!(
+                "overlapping acks of {acked:?} (both returned): persisted cursor is {after:?}, pointwise max of what was acknowledged is {frontier:?}"
+            ),
+        });
+    }
+    // 5. C15: crash, re-open from the frontier, everything the replay delivers must be un-acknowledged
+    if prop == "C15" && !lost.is_empty() && last_open.is_object() {
+        host.take().ok_or("no node")?.crash();
+        let mut open = last_open.clone();
+        open["arg"]["from"] = json!("frontier");
+        let (mut h2, _) = Host::start(kill, &open)?;
+        let settled = h2.exec(&json!({"act": "Settle"}));
+        h2.crash();
+        let settled = settled?;
+        let redelivered: Vec<String> = settled["replayed"]
+            .as_array()
+            .into_iter()
+            .flatten()
+            .filter(|o| o["tp"] == "t" && o["seq"].as_i64().unwrap_or(i64::MAX) <= frontier.get(o["a"].as_str().unwrap_or("?")).copied().unwrap_or(-1))
+            .map(op_key)
+            .collect();
+        if !redelivered.is_empty() {
+            out.push(Finding {
+                property: "C15",
+                signature: "c15-replay-redelivers-acked".into(),
+                detail: format!(
+                    "after overlapping acks of {acked:?} (both returned; acknowledged frontier {frontier:?}) and a crash, the stream re-opened \
+                     from the frontier delivered {redelivered:?} again (persisted cursor {after:?})"
+                ),
+            });
+        }
+    }
+    Ok(out)
 }
